@@ -211,6 +211,10 @@ func runC06(c *Ctx) {
 	add("critical-ext-idp", caEC, CRLOpts{CriticalExt: asn1.ObjectIdentifier{2, 5, 29, 28}}, "der")
 	add("version3", caEC, CRLOpts{Version: 3, Entries: c06Entries(r, 2, true)}, "der")
 	add("version4", caEC, CRLOpts{Version: 4}, "der")
+	// version bytes at the edges of uint8: 0x7f (128) and 0xff (INTEGER -1; int(uint8)+1 must not wrap to 0)
+	add("version128", caEC, CRLOpts{Version: 128, NoExts: true, Entries: c06Entries(r, 2, true)}, "der")
+	add("version-minus-1-noexts", caEC, CRLOpts{Version: 256, NoExts: true, Entries: c06Entries(r, 2, true)}, "der", "pemlf")
+	add("version-minus-1", caEC, CRLOpts{Version: 256, Entries: c06Entries(r, 2, true)}, "der")
 
 	for i, cs := range cases {
 		c.Count("format=" + cs.Format)
